@@ -175,3 +175,39 @@ def roundtrip_holds(c):
             if not canon_equal(tok, v):
                 return False
     return True
+
+
+def hex_to_bits(h, n):
+    if not h or h == '-':
+        return ''
+    return bin(int(h, 16))[2:].zfill(len(h) * 4)[:n]
+
+
+def compare_encode(c):
+    """Implementation's data section vs the model's encoder output.
+    Returns (equal, detail).  The implementation pads the section with zero bits
+    to whole (edition <= 3: an even number of) octets; the model's writer holds
+    exactly the field bits."""
+    ie, me = c.get('impl_enc'), c.get('model_enc')
+    if ie is None or me is None:
+        return True, 'not-run'
+    if ie[0] == 'err' or me.startswith('err'):
+        same = ie[0] == 'err' and me == 'err %d' % ie[1]
+        return same, 'error class impl=%r model=%r' % (ie[:2], me[:30])
+    parts = me.split(' ')
+    mh, mn = parts[1].split(':')
+    mn = int(mn)
+    mbits = hex_to_bits(mh, mn)
+    ibits = hex_to_bits(ie[1], ie[2])
+    if len(ibits) < mn:
+        return False, 'implementation wrote %d bits, model %d' % (len(ibits), mn)
+    if ibits[:mn] != mbits:
+        k = next(i for i in range(mn) if ibits[i] != mbits[i])
+        return False, 'data bits differ at bit %d (of %d)' % (k, mn)
+    pad = ibits[mn:]
+    if set(pad) - {'0'}:
+        return False, 'padding is not zero'
+    if len(pad) >= 16 or (c['edition'] >= 4 and len(pad) >= 8):
+        return False, 'padding of %d bits' % len(pad)
+    # descriptors and links recorded by the encoder
+    return True, ''
